@@ -25,8 +25,13 @@ SEED = int(os.environ.get("VERIF_SEED", "1") or "1")
 
 def seeds(tier, n_thorough):
     """Seeds of the random parts: one round in the quick tier, n rounds (distinct seeds) in the thorough tier."""
+    global ROUNDS
     n = 1 if tier == "quick" else int(os.environ.get("VERIF_ROUNDS", n_thorough))
+    ROUNDS = max(ROUNDS, n)
     return [SEED + 7919 * k for k in range(n)]
+
+
+ROUNDS = 1
 JOBS = int(os.environ.get("VERIF_JOBS", "0") or "0") or (os.cpu_count() or 4)
 TLA_JAR = "/opt/veriftools/tla/tla2tools.jar"
 TLA_CM = "/opt/veriftools/tla/CommunityModules-deps.jar"
@@ -400,7 +405,7 @@ class Check:
         wall = time.time() - self.t0
         cov = dict(states=max(self.states, 0), transitions=max(self.transitions, 0),
                    traces_validated_against_impl=self.traces, evaluations=self.evaluations,
-                   distinct_nontrivial=self.distinct, rule=self.rule, samples=self.samples[:8],
+                   distinct_nontrivial=self.distinct, rule=self.rule + (" [the seeded parts were run with %d distinct seeds]" % ROUNDS if ROUNDS > 1 else ""), samples=self.samples[:8],
                    exhaustive=self.exhaustive)
         cov.update(self.extra)
         if self.notes:
